@@ -175,7 +175,7 @@ pub fn show_error(e: &MpdProtocolError) -> String {
 fn show_outcome(r: Result<Option<Response>, MpdProtocolError>) -> (String, bool) {
     match r {
         // a decoded response is more than what fields() shows right away: its accessors must agree with the wire order too
-        Ok(Some(resp)) => match crate::framecases::accessors_differ(&resp) {
+        Ok(Some(resp)) => match crate::framecases::collections_differ(&resp).or_else(|| crate::framecases::accessors_differ(&resp)) {
             Some(d) => (format!("INCONSISTENT {}", d.replace(' ', "_")), true),
             None => (show_response(&resp), true),
         },
